@@ -429,6 +429,14 @@ func (p *MinQueriesPlanner) extractSelection(ctx *PlanningContext, config *extra
 				defn = config.plan.FragmentDefinitions.ForName(selection.Name)
 			}
 
+			// the part of the fragment that lives at this location: what the grouping above left here.
+			// The parts that live elsewhere already have steps of their own; walking the whole
+			// definition again would plan those steps a second time.
+			fragmentSelection := defn.SelectionSet
+			if local := locationFragments[config.parentLocation].ForName(selection.Name); local != nil {
+				fragmentSelection = local.SelectionSet
+			}
+
 			// compute the actual selection set for the fragment coming from this location
 			subSelection, err := p.extractSelection(ctx, &extractSelectionConfig{
 				steps:          config.steps,
@@ -439,7 +447,7 @@ func (p *MinQueriesPlanner) extractSelection(ctx *PlanningContext, config *extra
 				plan:           config.plan,
 
 				parentType: defn.TypeCondition,
-				selection:  defn.SelectionSet,
+				selection:  fragmentSelection,
 				// Children should now be wrapped by this fragment and nothing else
 				wrapper: ast.SelectionSet{selection},
 			})
